@@ -45,18 +45,19 @@ class WebSocketCodec(BaseComponent):
         self._pending_type = None
         self._close_received = False
         self._close_sent = False
-        self._buffer = bytearray()
-
-        messages = self._parse_messages(bytearray(data))
-        for message in messages:
-            if self._sock is not None:
-                self.fire(read(self._sock, message))
-            else:
-                self.fire(read(message))
+        # (decoded once the codec is registered: a ping among these bytes is
+        # answered on the channel of the parent, which is not known yet)
+        self._buffer = bytearray(data)
 
     @handler('registered')
     def _on_registered(self, component, parent):
         if component is self:
+            messages = self._parse_messages(bytearray())
+            for message in messages:
+                if self._sock is not None:
+                    self.fire(read(self._sock, message))
+                else:
+                    self.fire(read(message))
 
             @handler('read', priority=10, channel=parent.channel)
             def _on_read_raw(self, event, *args):
